@@ -192,9 +192,22 @@ func (c *ctx) refConn(d model.Doc, i int) {
 	srvKey := []byte(adm.Key)
 	quiet := !c.p.Scen.Stall && !c.p.Scen.Faulty && len(cs.WFault) == 0 && !w.timeout && !c.cancelledEarly() && c.allDelivered(id) && len(c.p.Park) == 0
 
+	// a failed or short write cuts a reply out of the stream the tap sees: from the first
+	// faulted write on, replies can no longer be paired with requests on this connection
+	goodWrites := 1 << 30
+	for n, e := range w.writes {
+		if e.S == "error" || e.S == "short" || e.S == "reset" {
+			goodWrites = n
+			break
+		}
+	}
 	k, g := 0, 0
 	before := len(c.out)
 	for _, pr := range preds {
+		if g >= goodWrites {
+			c.r.Probes["pairing-stopped-at-write-fault"]++
+			return
+		}
 		if len(c.out) > before {
 			return // the model and the server have diverged on this connection: later differences are consequences
 		}
